@@ -363,6 +363,7 @@ type libStats struct {
 	Fail       []libFail
 	Steps      int64
 	MaxCaseUs  int64
+	Slow       []string // cases that took more than a second
 }
 
 type libFail struct {
@@ -582,8 +583,13 @@ func libChildMain(args []string) {
 			}()
 			execLibCase(lc, st)
 		}()
-		if us := time.Since(t0).Microseconds(); us > st.MaxCaseUs {
+		us := time.Since(t0).Microseconds()
+		if us > st.MaxCaseUs {
 			st.MaxCaseUs = us
+		}
+		if us > 1e6 && len(st.Slow) < 50 {
+			st.Slow = append(st.Slow, fmt.Sprintf("case %d %s [%s] %d ms", n, lc.Entry, lc.Family, us/1000))
+			writeStats()
 		}
 		if n%1000 == 0 {
 			writeStats()
@@ -728,6 +734,12 @@ func accountLib(st *libStats, corpus *libCorpus, from, to int) {
 	}
 	for k, v := range st.Accepted {
 		run.Count("lib.accepted(lower bound)."+k, v)
+	}
+	for _, sl := range st.Slow {
+		run.Count("lib.slow_cases(>1s)", 1)
+		if os.Getenv("C18_DEBUG") != "" {
+			fmt.Println("SLOW", sl)
+		}
 	}
 	run.Count("lib.getopcode_steps", st.Steps)
 }
